@@ -70,6 +70,9 @@ func (fv *FnVerifier) lemmaCall(ce *CEnv, text string, st *State) {
 			fc = fv.eng.cs.Funcs[obj.Pkg().Path()+"#"+obj.Name()]
 		}
 	}
+	if fc == nil && obj != nil {
+		fc = fv.eng.externContract(obj)
+	}
 	if obj == nil || fc == nil {
 		unsupported("lemma call %q: function or its contract not found", text)
 	}
